@@ -107,7 +107,19 @@ def build_traces(tier: str, rng: random.Random):
         vals = sorted(vals)
         if len(vals) > 60:
             vals = rng.sample(vals, 60)
-        shift = rng.choice([0, -3, -11, 4])
+        shift = rng.choice([0, -3, -11, 4, -40, -60, 25])      # spacings from 1e-18 to 1e8
+        if rng.random() < 0.4:
+            # a fine lattice: values one unit (relative 1e-6 .. 1e-5) below / above the exact mid-points and the grid elements
+            f = 2**17
+            small = sorted(rng.sample(range(-1500, 1500), min(n, 40)))
+            pts = [2 * p * f for p in small]
+            vals = set()
+            for a, b in zip(pts, pts[1:]):
+                m = (a + b) // 2
+                vals |= {m - 1, m + 1, m, a + 1, b - 1, m - rng.randint(2, 9), m + rng.randint(2, 9)}
+            vals = sorted(vals)[:60] if len(vals) > 60 else sorted(vals)
+            if not vals:
+                vals = [pts[0] - 1, pts[0] + 1]
         ev = _call_closest(pts, vals, shift, 0)
         # idempotence: snap the snapped values again
         ev2 = _call_closest(pts, ev["out"], shift, 0) if ev["out"] else None
